@@ -672,7 +672,24 @@ func (vc *VC) execCall(fr *Frame, st *State, reach string, instr ssa.Instruction
 		key = vc.P.funcKey(callee)
 	}
 	n := fr.ordinal[instr]
-	vc.ghostPoint(fr, st, reach, "before", "call", n, key)
+	_, viaParam := common.Value.(*ssa.Parameter)
+	if up, ok := common.Value.(*ssa.UnOp); ok {
+		// parameter spilled to its cell and reloaded
+		if al, ok := up.X.(*ssa.Alloc); ok {
+			for _, p := range fr.fn.Params {
+				if p.Name() == al.Comment {
+					if _, bound := fr.topFrame().bind[p.Name()]; bound {
+						viaParam = true
+					}
+				}
+			}
+		}
+	}
+	what := "call"
+	if viaParam {
+		what = "dyncall"
+	}
+	vc.ghostPoint(fr, st, reach, "before", what, n, key)
 	var res Val
 	variant := ""
 	top := fr.topFrame()
@@ -700,6 +717,11 @@ func (vc *VC) execCall(fr *Frame, st *State, reach string, instr ssa.Instruction
 					names[p.Name()] = args[i]
 				}
 			}
+			for i, pn := range spec.AliasParams {
+				if i < len(args) {
+					names[pn] = args[i]
+				}
+			}
 		}
 		res = vc.applySpec(fr, st, reach, spec, callee, names, &fnv, instr, resT, key, n)
 	case callee.Blocks != nil && vc.P.repoPkgs[pkgOf(callee)] && vc.canInline(fr, callee):
@@ -715,7 +737,7 @@ func (vc *VC) execCall(fr *Frame, st *State, reach string, instr ssa.Instruction
 		vc.havocAllForCall(fr, st, args)
 		res = vc.freshResults(st, resT, callee.Name())
 	}
-	vc.ghostPoint(fr, st, reach, "after", "call", n, key)
+	vc.ghostPoint(fr, st, reach, "after", what, n, key)
 	return res
 }
 
@@ -829,6 +851,14 @@ func (vc *VC) applySpec(fr *Frame, st *State, reach string, spec *FuncSpec, call
 	vc.specsUsed[key] = true
 	pre := st.clone()
 	env := &Env{vc: vc, st: pre, old: pre, names: names, hash: map[string]Val{}, paramsFirst: true}
+	if len(spec.Bind) > 0 {
+		env.binds = map[string]*ssa.Function{}
+		for pn, fk := range spec.Bind {
+			if f := vc.P.fns[fk]; f != nil {
+				env.binds[pn] = f
+			}
+		}
+	}
 	if callee != nil && len(callee.FreeVars) > 0 && cloVal != nil {
 		env.cloFn = callee
 		env.cloVal = cloVal
@@ -979,7 +1009,7 @@ func (vc *VC) applySpec(fr *Frame, st *State, reach string, spec *FuncSpec, call
 			post[rn[i]] = res.Tup[i]
 		}
 	}
-	env2 := &Env{vc: vc, st: st, old: pre, names: post, hash: map[string]Val{}, paramsFirst: true, cloFn: env.cloFn, cloVal: env.cloVal}
+	env2 := &Env{vc: vc, st: st, old: pre, names: post, hash: map[string]Val{}, paramsFirst: true, cloFn: env.cloFn, cloVal: env.cloVal, binds: env.binds}
 	for _, c := range spec.Ensures {
 		c := c
 		g := vc.safeTr(fr, func() string { return env2.trBool(c.E) }, c.Src)
